@@ -1592,7 +1592,7 @@ var exclClasses = []exclClass{
 	{
 		name: "hash-string-content-starts-with-two-quotes", known: true,
 		verdicts: []string{"-U-"},
-		why:      "a single-line #-delimited literal whose content starts with two quote characters, e.g. ##\"\"\"#\"## (content \"\"#): the scanner reads the three quotes as a multi-line opener and fails, literal.ParseQuotes treats qqq followed by '#' as single-line and accepts. Same root cause as the quoted-form check: literal.String.WithOptionalHashes().Quote(`\"\"a`) == #\"\"\"a\"# which scanner, Unquote and parser all reject",
+		why:      "a single-line #-delimited literal whose content starts with two quote characters, e.g. ##\"\"\"#\"## (content \"\"#): the scanner reads the three quotes as a multi-line opener and fails, literal.ParseQuotes treats qqq followed by '#' as single-line and accepts. Form.Quote does not produce such literals (fix autohash: text starting with two quotes gets regular quoting)",
 		pred:     func(L string, num bool, h int) bool { return !num && hashStringTwoQuotes(L, h) && L[h+3] == '#' },
 	},
 	{
@@ -1663,6 +1663,14 @@ func threewayCase(c twCase) twResult {
 		return r
 	}
 	agree := r.verdict == "SUP" || r.verdict == "---"
+	if kind == "str-form" && !agree {
+		// the output of literal.Form.Quote must be accepted by all three components
+		r.formChk = true
+		r.untri = true
+		r.class = "quoted-form-rejected"
+		r.what = fmt.Sprintf("literal.%s.Quote(%q) == %q: verdicts %s (unquote error: %s)", c.form, c.content, L, r.verdict, uErr)
+		return r
+	}
 	if agree {
 		if num && r.verdict == "SUP" {
 			// extra: token kind agreement INT/FLOAT <-> NumInfo.IsInt
@@ -1679,13 +1687,8 @@ func threewayCase(c twCase) twResult {
 			r.formChk = true
 			if r.verdict != "SUP" {
 				r.what = fmt.Sprintf("literal.%s.Quote(%q) == %q is rejected by scanner, Unquote and parser (%s)", c.form, c.content, L, uErr)
-				if hashStringTwoQuotes(L, h) {
-					r.class = "hash-string-content-starts-with-two-quotes"
-					r.known = true
-				} else {
-					r.untri = true
-					r.class = "quoted-form-rejected"
-				}
+				r.untri = true
+				r.class = "quoted-form-rejected"
 			}
 		}
 		return r
